@@ -1325,3 +1325,47 @@ func constructorCallsSeeInitialisedFields(c *core.Ctx, rule string) {
 	}
 	c.Hold(rule, f.Name()+" helper calls that read late-assigned fields", f.Decl.Pos(), fmt.Sprintf("%d (call, field) pairs examined", n))
 }
+
+// receivedIdentifierNotInterpretedOnExport: a path handed to the Adj-RIB-Out by the Loc-RIB carries the path identifier it
+// was RECEIVED with (add-path RX); the identifiers of the paths the Adj-RIB-Out stores are the ones it SENT (allocated by
+// its pathIDManager).  The two number spaces are unrelated, so package adjRIBOut never reads BGPPath.PathIdentifier: its
+// only use of the field is the store of the identifier it allocated.  (Matching a removal "by identifier" compares a
+// received with a sent identifier: the wrong path, or none, is withdrawn.)
+func receivedIdentifierNotInterpretedOnExport(c *core.Ctx, rule string) {
+	pid := c.P.Field("route", "BGPPath", "PathIdentifier")
+	if pid == nil {
+		c.Check(false, rule, "BGPPath.PathIdentifier", 0, "field not found")
+		return
+	}
+	stores, reads := 0, 0
+	for _, f := range c.P.FuncsIn(outPkg) {
+		if f.Decl.Body == nil || isTestFn(c.P, f) {
+			continue
+		}
+		lhs := map[ast.Expr]bool{}
+		ast.Inspect(f.Decl.Body, func(nd ast.Node) bool {
+			if as, ok := nd.(*ast.AssignStmt); ok && as.Tok.String() == "=" {
+				for _, l := range as.Lhs {
+					lhs[core.Unparen(l)] = true
+				}
+			}
+			return true
+		})
+		ast.Inspect(f.Decl.Body, func(nd ast.Node) bool {
+			se, ok := nd.(*ast.SelectorExpr)
+			if !ok || core.FieldOf(f.Pkg, se) != pid {
+				return true
+			}
+			if lhs[se] {
+				stores++
+				return true
+			}
+			reads++
+			c.Analysed(f)
+			c.Fail(rule, fmt.Sprintf("%s reads a path identifier (#%d)", f.Name(), reads), se.Pos(),
+				"the Adj-RIB-Out interprets BGPPath.PathIdentifier of a path: for paths coming from the Loc-RIB that is the identifier RECEIVED from another peer, which has nothing to do with the identifiers this table sent")
+			return true
+		})
+	}
+	c.Check(stores >= 1, rule, "adjRIBOut stores the identifier it allocated", 0, "the store of the allocated path identifier was not found")
+}
